@@ -79,6 +79,8 @@ def run(R):
     R.rule("C03-R3", "atomic rejection: on the update path no Err exit is reachable after a dataset-mutating call has "
                      "succeeded; the mutation applier cannot fail; template instantiation and plan building cannot mutate quads")
     R.rule("C03-R4", "per-solution blank nodes: the blank-node map is created inside the per-solution loop and outside the per-template loop")
+    R.rule("C03-R6", "complete application: the applier runs the mutator on every instantiated quad of the deletion set and of the "
+                     "insertion set (the consumed iterator is the whole parameter set, with no restricting adaptor)")
     R.rule("C03-R5", "counts are mutator results: UpdateSummary fields are the counts of the delete_quad / insert_quad results")
 
     am = R.body("C03-R1", "execute_query::apply_mutations", crate="kolibrie")
@@ -101,6 +103,17 @@ def run(R):
             ok = all(am.dominates(db, ib) and db != ib for ib, ic, ik in inss)
             R.ob("C03-R1", "dominates:%s" % dk, "the deletion effect (%s) completes before any insertion effect starts" % dk, ok,
                  where=am.where(dc.ln))
+        # R6: the iterator consumed at each effect point is the whole set
+        for label, pts, param in (("deletions", dels, 1), ("insertions", inss, 2)):
+            for bbp, c, kind in pts:
+                chain, src = _iter_chain(am, c, kind)
+                extra = [n for n in chain if n not in ("filter", "iter", "into_iter", "count", "for_each", "next", "by_ref")]
+                # at most one filter: the effect closure itself
+                nfil = chain.count("filter")
+                ok = src == param and not extra and nfil <= 1
+                R.ob("C03-R6", "whole-set:" + label, "the mutator is applied to every quad of `%s` (iterator chain: %s over parameter %s)"
+                     % (label, chain, src), ok, where=am.where(c.ln),
+                     detail=None if ok else "quads that are skipped are neither applied nor counted")
         # every insertion/deletion goes through the effect points: no other dataset mutation in the applier
         sk = dbsinks.sinks(prog)
         # signature: plain value
@@ -284,3 +297,45 @@ def _same_string(b, op1, op2):
         return l
     a, c = root(op1), root(op2)
     return a is not None and a == c
+
+
+def _iter_chain(b, c, kind):
+    """names of the calls from the source collection to the consuming call c, and the parameter index of the source"""
+    chain = []
+    cur = None
+    if kind == "direct":
+        # a loop: find the `next` call in the innermost loop containing c and walk from its iterator
+        lps = b.loops_containing(c.bb)
+        if not lps:
+            return chain, None
+        h, body = min(lps, key=lambda x: len(x[1]))
+        nx = [x for x in b.calls() if x.bb in body and x.name() == "next"]
+        if not nx:
+            return chain, None
+        chain.append("next")
+        cur = nx[0].args[0]
+    else:
+        chain.append(c.name())
+        cur = c.args[0]
+    for _ in range(12):
+        o = b.origin(cur, stop_named=False)
+        if o[0] == "call":
+            chain.append(o[1].name())
+            if not o[1].args:
+                return chain, None
+            cur = o[1].args[0]
+            continue
+        if o[0] == "place":
+            l = o[1]["l"]
+            if 1 <= l <= b.nargs and not [e for e in o[1]["p"] if e["k"] != "deref"]:
+                return chain, l
+            d = b.single_def(l)
+            if d and d[0] == "call":
+                chain.append(d[2].name())
+                if not d[2].args:
+                    return chain, None
+                cur = d[2].args[0]
+                continue
+            return chain, None
+        return chain, None
+    return chain, None
